@@ -39,7 +39,8 @@ Class(name, o) ==
          IN  c.algo \o ":" \o (IF ~u.absolute THEN "not-absolute"
                                ELSE IF ~u.http THEN "not-http"
                                ELSE IF ~u.samehost THEN "off-site"
-                               ELSE "not-an-anchor-target") \o (IF c.kind = "mixed" THEN ":page=" \o c.page ELSE "")
+                               ELSE IF u.trimtarget THEN "anchor-resolved-against-page-url-without-trailing-slash"
+                               ELSE "not-an-anchor-target")
     ELSE c.algo \o ":" \o c.fam
 
 Return == /\ IsEvent("Return") /\ pc = "called" /\ Trace[l].run = run
